@@ -8,7 +8,7 @@ Open Scope Z_scope.
 
 Definition m64 : Z := 18446744073709551616.
 Definition rotl (x : Z) (n : Z) : Z :=
-  if n =? 0 then x else Z.lor (Z.shiftl x n mod m64) (Z.shiftr x (64 - n)).
+  if n =? 0 then x else Z.lor (Z.land (Z.shiftl x n) (m64 - 1)) (Z.shiftr x (64 - n)).
 
 Definition lane (s : list Z) (i : nat) : Z := nth i s 0.
 
